@@ -72,6 +72,8 @@ func c03BigKeys(r *core.Rand) map[int64]string {
 	return m
 }
 
+type c03PairKey struct{ A, B string }
+
 type c03Visit struct {
 	Page string
 	at   time.Time
@@ -170,6 +172,8 @@ func (p *c03) gen(seed uint64, idx int) c03Case {
 		"{{ ch }}|{{ fn }}|{{ [ch, fn] }}", "{{ '%v %v'|format(p, ps) }}|{{ '%d'|format(p) }}|{{ '%s'|format(pstr) }}", "{{ dump(mp) }}|{{ dump(p) }}|{{ dump(st) }}", "{{ dump(ps, lp) }}|{{ '%v'|format(mp) }}|{{ '%v'|format(pp) }}", "{{ {'c': ch}|join }}{{ dump(ch)|length > 0 ? 'd' : 'n' }}",
 		// pointers as map keys and several NaN keys, printed
 		"{{ pkm }}|{{ nan3 }}", "{{ [pkm, nan3] }}|{{ {'k': nan3, 'p': pkm} }}", "{{ pkm ~ '' }}{{ '%v'|format(nan3) }}|{{ dump(pkm)|length > 0 ? 'd' : 'n' }}",
+		// array and struct keys of one type that print alike and differ ([2]string{"a b", "c"} and {"a", "b c"})
+		"{% for k, v in akm %}{{ v }};{% endfor %}|{{ akm|first }}{{ akm|last }}|{{ akm|keys|join(',') }}", "{% for k, v in skm %}{{ k }}={{ v }};{% endfor %}|{{ skm|first }}|{{ skm|join(',') }}", "{{ akm }}|{{ skm }}|{{ akm|json_encode|length }}{% for v in skm %}{{ v }}{% endfor %}",
 		// integer keys beyond 2^53 (neighbours that are one float64); two failing values in one include
 		"{% for k, v in bigk %}{{ k }}={{ v }};{% endfor %}|{{ bigk|keys|join(',') }}|{{ bigk|first }}{{ bigk|last }}", "{{ bigk }}|{{ bigk|json_encode|length }}|{% for v in bigk %}{{ v }}{% endfor %}",
 		"{% include 'inc' with {'alpha': nosuch_a(), 'beta': nosuch_b(), 'gamma': nosuch_c(), 'delta': nosuch_d()} %}", "{% include 'inc' with {'eps': 1 / 0, 'beta': nosuch_b(1), 'zeta': [] .x.y} only %}",
@@ -326,6 +330,8 @@ func (c c03Case) buildCtx(variant uint64) map[string]interface{} {
 	at := time.Date(2024, 1, 2, 3, 4, 5, 0, zone)
 	u, _ := url.Parse("https://example.org/a?b=c")
 	return map[string]interface{}{
+		"akm":  map[[2]string]int{{"a b", "c"}: 1, {"a", "b c"}: 2, {"a", "b  c"}: 3, {"", "a b c"}: 4, {"a b c", ""}: 5},
+		"skm":  map[c03PairKey]string{{"a b", "c"}: "p", {"a", "b c"}: "q", {"a b c", ""}: "r", {"x", "y"}: "s"},
 		"bigk": c03BigKeys(r), "pkm": c03PointerKeys(r), "nan3": map[float64]string{math.NaN(): "a", math.NaN(): "b", math.NaN(): "c", 1.5: "x", math.Float64frombits(0x7ff8000000000001): "d"},
 		"ts32": int32(34560000), "tsu": uint(34560001), "tsf": float32(34560000), "tsn": json.Number("34560002"), "pd": &at, "tsnamed": c03Stamp(34560003),
 		"visit":  c03Visit{Page: "home", at: at},
